@@ -5,6 +5,8 @@ from vlib.diff import Case, run_batch, san_site
 from checks import c05 as W
 
 LEVEL = "proof"
+# C functions this check's models mirror (source-text fingerprints are recorded in the evidence, see translate/funchash.py)
+MODELLED_FUNCS = {'src/kv/iwal.c': ['_write_wl', '_flush_wl', '_onset', '_onwrite', '_onresize', '_oncopy', '_savepoint_exl', '_checkpoint_exl', '_truncate_wl', '_rollforward_exl', '_recover_wl', '_onclosing']}
 MANIFEST = dict(
     level="proof",
     text=("Lean 4 theorems over the executable WAL model: the roll-forward of a log of absolute-address records is idempotent over every "
